@@ -13,6 +13,7 @@ import Sudachi.Model.PySession
 import Sudachi.Model.Sched
 import Sudachi.Model.Rewrite
 import Sudachi.Model.Subset
+import Sudachi.Model.SubsetRw
 import Sudachi.Model.Split
 import Sudachi.Model.Params
 import Sudachi.Model.ParamsCfg
@@ -44,7 +45,7 @@ def answer (line : String) : String :=
     | "C19" => if op = "pyglue".toList then PyGlue.handle rest else if op = "pysess".toList then PySession.handle rest else Cli.handle op rest
     | "C18" => Sched.handleOp op rest
     | "C14" => Rewrite.handle rest
-    | "C11" => Subset.handle op rest
+    | "C11" => Subset.handleAll op rest
     | "C09" => Split.handle op rest
     | "C20" => Params.handle2 op rest
     | "C12" => Layers.handle op rest
